@@ -183,7 +183,7 @@ def guardedNoCmd (P : Program) (F : Flags) (tr : List Label) : Bool :=
       match P[t]? with
       | none => true
       | some d =>
-        let blocked := !d.platformOk || !d.requiresOk || !d.enumOk || !d.precondOk || (d.prompt && !F.yes)
+        let blocked := !d.platformOk || !d.requiresOk || !d.compileOk || !d.enumOk || !d.precondOk || (d.prompt && !F.yes)
         !blocked || (evsOf a tr).all (fun e => match e with | .cmdStart _ _ _ | .callRelease _ _ => false | _ => true)
 
 /-- C03: after a command of `a` ended with a failure that is not ignored, `a` starts no
